@@ -672,10 +672,10 @@ def polarity(run, P, rule):
 
 
 def _wrap(run, P):
-    """What a pass puts in the place of one statement, case by case (symbolic
-    evaluation of map_StatementWrapper with 1 - 3 statements coming back from
+    """What a pass puts in the place of one statement, case by case (abstract
+    interpretation of map_StatementWrapper with 1 - 3 statements coming back from
     map_statement, each guarded or not)."""
-    from ..engine import symeval as se
+    from ..engine import casetable as se
     from .c05 import ast_den
     f = P.func(f"{MOD}.ASTStatementRewriter.map_StatementWrapper")
     G = [("obj", f"guard{i}") for i in (1, 2, 3)]
